@@ -1,2 +1,172 @@
+"""C12 - structural premise of the model, re-read from the source on every run (fail closed):
+
+every access to the shared fields of dns.versioned.Zone
+    _versions  _readers  _write_txn  _write_event  _write_waiters  _pruning_policy
+is (a) lexically inside `with self._version_lock:`, or (b) inside a method named *_unlocked all of whose
+call sites satisfy (a)/(b)/(c), or (c) inside __init__ (the object is not shared yet), or one of the
+documented lock-free reads, which the model has as separate steps / which only the admitted writer makes:
+    Zone._get_next_version_id                 reads  self._versions
+    dns.btreezone.WritableVersion.__init__    reads  zone._versions[-1]
+    Zone.writer, after the admission loop     reads  self._write_txn  (its own transaction)
+    the policy closure of set_max_versions    reads  zone._versions   (only ever called by the prune loop)
+and no Event.wait() happens inside a `with self._version_lock:` block.
+"""
+import ast
+import os
+
+FIELDS = {"_versions", "_readers", "_write_txn", "_write_event", "_write_waiters", "_pruning_policy"}
+
+
+def repo():
+    return os.environ.get("VERIF_REPO", "/repo")
+
+
+def is_lock_with(node):
+    if not isinstance(node, ast.With):
+        return False
+    for item in node.items:
+        e = item.context_expr
+        if isinstance(e, ast.Attribute) and e.attr == "_version_lock":
+            return True
+    return False
+
+
+class Visitor(ast.NodeVisitor):
+    def __init__(self, fname):
+        self.fname = fname
+        self.stack = []        # enclosing function names
+        self.lock_depth = 0
+        self.cls = []
+        self.accesses = []     # (field, func path, lineno, locked, store, base name)
+        self.unlocked_calls = []  # (callee, func path, lineno, locked)
+        self.waits_under_lock = []
+
+    def visit_ClassDef(self, node):
+        self.cls.append(node.name)
+        self.generic_visit(node)
+        self.cls.pop()
+
+    def visit_FunctionDef(self, node):
+        self.stack.append(node.name)
+        saved = self.lock_depth
+        if len(self.stack) > 1:
+            # a nested function does not run where it is defined
+            self.lock_depth = 0
+        self.generic_visit(node)
+        self.lock_depth = saved
+        self.stack.pop()
+
+    visit_AsyncFunctionDef = visit_FunctionDef
+
+    def visit_Lambda(self, node):
+        self.stack.append("<lambda>")
+        saved = self.lock_depth
+        self.lock_depth = 0
+        self.generic_visit(node)
+        self.lock_depth = saved
+        self.stack.pop()
+
+    def visit_With(self, node):
+        if is_lock_with(node):
+            for item in node.items:
+                self.visit(item)
+            self.lock_depth += 1
+            for b in node.body:
+                self.visit(b)
+            self.lock_depth -= 1
+        else:
+            self.generic_visit(node)
+
+    def visit_Attribute(self, node):
+        if node.attr in FIELDS:
+            base = node.value.id if isinstance(node.value, ast.Name) else "?"
+            self.accesses.append((node.attr, tuple(self.cls), tuple(self.stack), node.lineno, self.lock_depth > 0,
+                                  isinstance(node.ctx, (ast.Store, ast.Del)), base))
+        self.generic_visit(node)
+
+    def visit_Call(self, node):
+        f = node.func
+        if isinstance(f, ast.Attribute):
+            if f.attr.endswith("_unlocked"):
+                self.unlocked_calls.append((f.attr, tuple(self.cls), tuple(self.stack), node.lineno, self.lock_depth > 0))
+            if f.attr == "wait" and self.lock_depth > 0:
+                self.waits_under_lock.append((tuple(self.stack), node.lineno))
+        self.generic_visit(node)
+
+
+def guard():
+    """returns (ok, problems, facts)"""
+    problems = []
+    facts = {}
+    root = repo()
+    files = []
+    for dirpath, _, fs in os.walk(os.path.join(root, "dns")):
+        for f in fs:
+            if f.endswith(".py"):
+                files.append(os.path.join(dirpath, f))
+    total = 0
+    for path in sorted(files):
+        rel = os.path.relpath(path, root)
+        try:
+            src = open(path, encoding="utf-8").read()
+        except Exception as e:  # noqa
+            problems.append(f"{rel}: unreadable ({e})")
+            continue
+        if not any(fld in src for fld in FIELDS):
+            continue
+        try:
+            tree = ast.parse(src)
+        except SyntaxError as e:
+            problems.append(f"{rel}: does not parse ({e})")
+            continue
+        v = Visitor(rel)
+        v.visit(tree)
+        for fld, cls, stack, line, locked, store, base in v.accesses:
+            total += 1
+            fn = stack[-1] if stack else "<module>"
+            outer = stack[0] if stack else "<module>"
+            where = f"{rel}:{line} {'.'.join(cls)}.{'.'.join(stack)}"
+            if rel == os.path.join("dns", "versioned.py") and cls[:1] == ("Zone",):
+                if locked or fn.endswith("_unlocked") or outer == "__init__":
+                    continue
+                if fn == "_get_next_version_id" and fld == "_versions" and not store:
+                    continue
+                if stack == ("writer",) and fld == "_write_txn" and not store:
+                    continue
+                if stack == ("set_max_versions", "policy") and fld == "_versions" and not store and base == "zone":
+                    continue
+                problems.append(f"{where}: {'write to' if store else 'read of'} {fld} outside `with self._version_lock`")
+            elif rel == os.path.join("dns", "btreezone.py") and cls == ("WritableVersion",) and stack == ("__init__",) \
+                    and fld == "_versions" and not store:
+                continue
+            else:
+                problems.append(f"{where}: access to {fld} of a versioned zone from outside dns.versioned.Zone")
+        for callee, cls, stack, line, locked in v.unlocked_calls:
+            fn = stack[-1] if stack else "<module>"
+            outer = stack[0] if stack else "<module>"
+            if locked or fn.endswith("_unlocked") or outer == "__init__":
+                continue
+            problems.append(f"{rel}:{line} {'.'.join(stack)}: calls {callee} without holding the lock")
+        for stack, line in v.waits_under_lock:
+            problems.append(f"{rel}:{line} {'.'.join(stack)}: Event.wait() while holding _version_lock")
+    facts["accesses_checked"] = total
+    if total < 20:
+        problems.append(f"only {total} accesses to the shared fields found: the guard no longer recognises the code")
+    return (not problems), problems, facts
+
+
+def generated_obligations(ctx):
+    ok, problems, facts = guard()
+    ctx.notes["ast_guard"] = {"ok": ok, **facts, "problems": problems[:10]}
+    return {
+        "obligations": 1,
+        "discharged": 1 if ok else 0,
+        "ok": ok,
+        "theorems": ["astguard_shared_state_only_under_version_lock"],
+        "log": "AST guard (premise of the C12 model: shared fields only accessed under _version_lock):\n" + "\n".join(problems),
+        "info": facts,
+    }
+
+
 def check(ctx):
     return []
